@@ -121,7 +121,8 @@ class GridProp:
             import importlib
 
             enga.init()
-            results += importlib.import_module(extra_mod).run(runner.SEED)
+            for em in extra_mod.split(","):
+                results += importlib.import_module(em).run(runner.SEED)
         st = None
         if self.selftest:
             results, st = split_selftest(results, self.ID)
